@@ -152,6 +152,7 @@ func TestC15A_ProtoBytes(t *testing.T) {
 		}
 		deepPoke = false
 		defer func() { deepPoke = true }()
+		input = exact(input)
 		for _, name := range names {
 			e := ents[name]
 			p := &probe{part: "proto_bytes", entry: name, input: input, note: how}
